@@ -328,10 +328,15 @@ def cls_praj_shared_class_max(d):
 
 
 def cls_class_edge_batch(d):
-    """a point other than the first of a batch whose sequence has a load or load range exactly on a look-up class edge
-    (multiple of max|load|/100): the class is chosen from the first point's float rounding (notch_approximation_law.Binned)"""
+    """a point other than the reference point of a batch whose sequence has a load or load range exactly on a look-up class edge
+    (multiple of max|load|/100): the class is chosen for all points from the float rounding at the reference point
+    (notch_approximation_law.Binned: the point with the largest maximum load, first one on ties; it was the first point before the C07 repair)"""
     it = d['item']
-    if it['kind'] != 'batch' or it['i'] == 0:
+    if it['kind'] != 'batch':
+        return False
+    r = it['specs'][1]['ratios']
+    ref = max(range(len(r)), key=lambda k: (r[k], -k))
+    if it['i'] == ref:
         return False
     return edge_dist(it['specs'][1]['seq']) < EDGE
 
